@@ -478,6 +478,11 @@ def job_graph(job):
             g = alg.d - 1 if (alg.r == 1 and alg.d in (3, 4)) else 1
             pk = tuple(alg.indices_for_grades[(g,)])
             pts = [mv_from(alg, pk, [float(rng.randint(1, 5)) for _ in pk]) for _ in range(2)]
+            if not (alg.r == 1 and alg.d in (3, 4)) and len(pk) >= 3:
+                # a draggable point that stores only some blades of its grade, in non-canonical order (every multivector is
+                # draggable outside PGA): the write-back goes through the key-to-index map, blade by blade
+                sk = tuple(reversed(pk[::2])) if it % 2 == 0 else tuple(k for j_, k in enumerate(pk) if j_ != 1)
+                pts[1] = mv_from(alg, sk, [float(rng.randint(1, 5)) for _ in sk])
             other = mv_from(alg, (0,), [1.0])
             dep = lambda: pts[0] + pts[1]
             out['evaluations'] += 1
